@@ -5,7 +5,11 @@
 // a digest; the same script is executed again sequentially AFTER the
 // concurrent phase (so that first-use initialisation happens under
 // contention) and the digests must be equal.
+#ifndef VT_Q
+#define BSPLINE_INTERPOLATION_USE_EIGEN
+#endif
 #include <bspline/integration/numerical.h>
+#include <bspline/interpolation/interpolation.h>
 #include <pthread.h>
 #include <sched.h>
 
@@ -72,6 +76,9 @@ enum Act {
   A_OWN_GRID,
   A_SUPPORT,
   A_QUADRATURE,
+  A_INTERPOLATE,
+  A_REFUSED_CALLS,
+  A_RARE_INSTANTIATIONS,
   A_COUNT
 };
 const char *actName(int a) {
@@ -81,7 +88,8 @@ const char *actName(int a) {
                             "linear-form", "generateBSplines", "isZero",
                             "linearCombination", "getData", "compare",
                             "own-grid-instance", "support-algebra",
-                            "quadrature"};
+                            "quadrature", "interpolate", "refused-calls",
+                            "rare-instantiations"};
   return n[a];
 }
 
@@ -103,6 +111,9 @@ struct Shared {
   Spline<T, 2> onTwin;   // equal points, different grid object
   Spline<T, 1> general;  // general coefficients on a sub-window
   Spline<T, 0> empty;
+  Grid<T> cousinGrid;      // logically different grid
+  Spline<T, 2> onCousin;   // operands of calls that must be refused
+  std::vector<T> ordinates;
   using OpT = decltype(bspline::operators::X<2>{} +
                        bspline::operators::SplineOperator<T, 1>{
                            std::declval<Spline<T, 1>>()} *
@@ -117,6 +128,15 @@ struct Shared {
       for (size_t r = 0, m = (i == 0 || i + 1 == pts.size()) ? 3 : 1 + (i % 3 == 0); r < m; r++)
         k.push_back(mk<T>(pts[i]));
     return k;
+  }
+  static Grid<T> mkCousin(std::vector<R> p) {
+    p.back() += 1;
+    return Grid<T>(mkVec<T>(p));
+  }
+  static std::vector<T> mkOrd(size_t n) {
+    std::vector<T> y;
+    for (size_t i = 0; i < n; i++) y.push_back(mk<T>((long)((i * 7) % 5) - 2, 2));
+    return y;
   }
   static OpT mkOp(const Spline<T, 1> &v) {
     using namespace bspline::operators;
@@ -133,7 +153,10 @@ struct Shared {
                               genCoefM(g, true, pts.size() - 3, 2))),
         general(mkSpline<T, 1>(grid, 2, pts.size(),
                                genCoefM(g, true, pts.size() - 3, 1))),
-        empty(grid), sharedOp(mkOp(general)),
+        empty(grid), cousinGrid(mkCousin(pts)),
+        onCousin(mkSpline<T, 2>(cousinGrid, 0, pts.size(),
+                                genCoefM(g, true, pts.size() - 1, 2))),
+        ordinates(mkOrd(pts.size())), sharedOp(mkOp(general)),
         sharedForm(bspline::operators::Dx<1>{}, mkOp(general)),
         sharedLinear(mkOp(general)) {}
 };
@@ -274,6 +297,74 @@ uint64_t runScript(const Shared<T> &S, uint64_t seed, size_t len, bool yields,
         d.u(sa.intervalIndexFromAbsolute(i).value_or(99));
         break;
       }
+      case A_INTERPOLATE: {
+        // interpolation over the shared (const) abscissae and ordinates
+        const Support<T> xs = Support<T>::createWholeGrid(S.grid);
+#ifndef VT_Q
+        switch (g.below(3)) {
+          case 0: d.spline(bspline::interpolation::interpolateUsingEigen<T, 1>(xs, S.ordinates)); break;
+          case 1: d.spline(bspline::interpolation::interpolateUsingEigen<T, 3>(xs, S.ordinates)); break;
+          default: {
+            std::array<bspline::interpolation::Boundary<T>, 1> bc{
+                bspline::interpolation::Boundary<T>{bspline::interpolation::Node::LAST, 2, mk<T>(R(1))}};
+            d.spline(bspline::interpolation::interpolateUsingEigen<T, 2>(xs, S.ordinates, bc));
+          }
+        }
+#else
+        d.u(xs.size() + S.ordinates.size());
+#endif
+        break;
+      }
+      case A_REFUSED_CALLS: {
+        // exception paths, concurrently: the outcome is part of the digest
+        auto code = [&](auto &&f) -> uint64_t {
+          try {
+            f();
+          } catch (const BSplineException &e) {
+            return 100 + (uint64_t)e.getErrorCode() + std::string(e.what()).size();
+          } catch (const std::exception &) {
+            return 7;
+          }
+          return 1;
+        };
+        d.u(code([&] { auto r = S.b2[i] + S.onCousin; (void)r; }));
+        d.u(code([&] { auto r = S.onCousin * S.b1[i1]; (void)r; }));
+        d.u(code([&] { (void)ScalarProduct{}(S.b2[i], S.onCousin); }));
+        d.u(code([&] { auto r = SplineOperator{S.onCousin} * S.b2[i]; (void)r; }));
+        d.u(code([&] { (void)S.grid.at(S.grid.size() + i); }));
+        d.u(code([&] { (void)S.b2[i].getSupport().at(~size_t(0) - i); }));
+        d.u(code([&] { (void)S.empty.front(); }));
+        d.u(code([&] { (void)S.grid.findElement(x + mk<T>(R(1) / 1024)); }));
+        d.u(code([&] { Grid<T> bad(std::vector<T>{x, x}); (void)bad; }));
+        d.u(code([&] {
+          std::vector<T> cs(2, x);
+          auto r = bspline::linearCombination(cs, S.b0);
+          (void)r;
+        }));
+        d.u(code([&] {
+          bspline::BSplineGenerator<T> bad(S.knots, S.cousinGrid);
+          (void)bad;
+        }));
+        break;
+      }
+      case A_RARE_INSTANTIATIONS:
+        // template arguments no other action uses
+        switch (g.below(8)) {
+          case 0: d.spline(X<6>{} * S.b0[g.below(S.b0.size())]); break;
+          case 1: d.spline(X<8>{} * S.b0[g.below(S.b0.size())]); break;
+          case 2: d.spline(Dx<4>{} * (S.b3[i3] * S.b3[i3])); break;
+          case 3: d.spline(Dx<6>{} * (S.b3[i3] * S.b3[i3])); break;
+          case 4: for (const auto &s : S.gen.template generateBSplines<5>()) d.spline(s); break;
+          case 5: for (const auto &s : S.gen.template generateBSplines<1>()) d.spline(s); break;
+          case 6: d.val(LinearForm{X<5>{} * Dx<2>{}}(S.b3[i3])); break;
+          default: {
+            Spline<T, 3> hi(S.grid);
+            hi = S.b1[i1];  // cross-order assignment
+            d.spline(hi);
+            d.val(BilinearForm{Dx<2>{}, X<4>{} - 2}(S.b3[i3], hi));
+          }
+        }
+        break;
       default:
 #ifndef VT_Q
         switch (g.below(3)) {
